@@ -3,6 +3,8 @@ import datetime as D
 import math
 import random
 
+import pandas as pd
+
 from hypothesis import strategies as st
 
 from vlib import cal, gen, market
@@ -161,11 +163,49 @@ def run_case(case):
                                 raise Violation('handler over two sources: %s(%s, EQ:%s) adjust=%s returned %r; '
                                                 'point-in-time answer is %r' % (k, t, name, adjust, g, exp))
                 cls.add('two_sources_handler')
+            # a handler that carries a universe answers the same: prices do not depend on universe membership
+            for uni in (q.StaticUniverse([]), q.DynamicUniverse({'EQ:' + n: queries[-1] + pd.Timedelta(days=400) for n in syms})):
+                dhu = q.BacktestDataHandler(uni, data_sources=[ds])
+                for name, rows in syms.items():
+                    obs = observations(rows, adjust)
+                    for t in queries[:6]:
+                        exp = lookup(obs, t)[0]
+                        for k, g in (('bid', dhu.get_asset_latest_bid_price(t, 'EQ:' + name)),
+                                     ('mid', dhu.get_asset_latest_mid_price(t, 'EQ:' + name))):
+                            if not same(float(g), exp):
+                                raise Violation('handler with a %s: %s(%s, EQ:%s) returned %r; point-in-time answer is %r' % (
+                                    type(uni).__name__, k, t, name, g, exp))
             for t in queries[:3]:
                 u = dh.get_asset_latest_bid_price(t, 'EQ:NOPE')
                 m_ = dh.get_asset_latest_mid_price(t, 'EQ:NOPE')
                 if not (math.isnan(u) and math.isnan(m_)):
                     raise Violation('unknown symbol priced %r / %r through the handler' % (u, m_))
+        if case.get('session_built'):
+            # the handler a BacktestTradingSession builds for itself (QSTRADER_CSV_DATA_DIR, default adjustment) for a
+            # session starting and ending inside the file still answers every instant point-in-time
+            import os
+            qs = sorted(queries)
+            s0, s1 = qs[len(qs) // 3], qs[-1]
+            old_env = os.environ.get('QSTRADER_CSV_DATA_DIR')
+            os.environ['QSTRADER_CSV_DATA_DIR'] = path
+            try:
+                bt = q.BacktestTradingSession(s0, s1 + pd.Timedelta(days=1), q.StaticUniverse(['EQ:' + n for n in syms]),
+                                              q.FixedSignalsAlphaModel({}), rebalance='daily', long_only=True,
+                                              cash_buffer_percentage=0.05)
+            finally:
+                if old_env is None:
+                    os.environ.pop('QSTRADER_CSV_DATA_DIR', None)
+                else:
+                    os.environ['QSTRADER_CSV_DATA_DIR'] = old_env
+            for name, rows in syms.items():
+                obs = observations(rows, True)
+                for t in queries:
+                    exp = lookup(obs, t)[0]
+                    g = bt.data_handler.get_asset_latest_bid_price(t, 'EQ:' + name)
+                    if not same(float(g), exp):
+                        raise Violation('session-built handler (session %s..%s): bid(%s, EQ:%s) returned %r; point-in-time '
+                                        'answer is %r' % (s0, s1, t, name, g, exp))
+            cls.add('session_built_handler')
         # metamorphic: future rows rewritten / deleted, row order permuted
         tc = cal.ts6(case['cut'])
         base = {}
@@ -243,7 +283,7 @@ def cases(draw):
     cut = draw(st.sampled_from(qs))
     return {'symbols': syms, 'queries': qs, 'cut': cut, 'cut_mode': draw(st.sampled_from(['rewrite', 'delete', 'mix'])),
             'cut_seed': draw(st.integers(0, 1000)), 'cut_adjust': draw(st.booleans()), 'flags': flags,
-            'all_files': draw(st.sampled_from([False, False, True])),
+            'all_files': draw(st.sampled_from([False, False, True])), 'session_built': draw(st.sampled_from([False, False, True])),
             'zones': draw(st.lists(st.sampled_from([None, None, 'Europe/Berlin', 'America/New_York', 'Asia/Tokyo']), min_size=1, max_size=5))}
 
 
